@@ -407,12 +407,14 @@ namespace GeographicLib {
       drho = ((den != 0 && isfinite(den))
               ? (x*nx + y * (ny - 2*_nrho0)) / den
               : den);
-    drho = fmin(drho, _drhomax);
+    // (written so that a NaN drho stays a NaN)
+    drho = drho > _drhomax ? _drhomax : drho;
     if (_n == 0)
-      drho = fmax(drho, -_drhomax);
+      drho = drho < -_drhomax ? -_drhomax : drho;
     real
       // Round-off can make t^n - 1 slightly less than -1 at the image of the pole
-      tnm1 = fmax(real(-1), _t0nm1 + _n * drho/_scale),
+      tnm1a = _t0nm1 + _n * drho/_scale,
+      tnm1 = tnm1a < -1 ? -1 : tnm1a, // a NaN stays a NaN
       dpsi = (den == 0 ? 0 :
               (tnm1 + 1 != 0 ? - Dlog1p(tnm1, _t0nm1) * drho / _scale :
                ahypover_));
